@@ -25,6 +25,24 @@ def fw(text):
     return r
 
 
+_pandoc_calls = []
+
+
+def _fake_convert_text(source, to, format=None, extra_args=(), **kw):
+    """Stand-in for pypandoc.convert_text inside this driver process (pandoc is not modelled): records the call."""
+    _pandoc_calls.append(1)
+    return source
+
+
+def rst_rec(t, w, i, n):
+    import pypandoc
+    pypandoc.convert_text = _fake_convert_text
+    del _pandoc_calls[:]
+    r = guard(rst, t, width=w, indent=i, nl=n)
+    r["pandoc"] = bool(_pandoc_calls)
+    return r
+
+
 def doc(d):
     loc = descriptor_pb2.SourceCodeInfo.Location(leading_comments=d.get("leading", ""), trailing_comments=d.get("trailing", ""),
                                                  leading_detached_comments=d.get("detached", []))
@@ -36,7 +54,7 @@ def main():
     out = {
         "fixws": [fw(t) for t in p.get("fixws", [])],
         "wrap": [guard(wrap, t, w, offset=o, indent=i) for t, w, o, i in p.get("wrap", [])],
-        "rst": [guard(rst, t, width=w, indent=i, nl=n) for t, w, i, n in p.get("rst", [])],
+        "rst": [rst_rec(t, w, i, n) for t, w, i, n in p.get("rst", [])],
         "tw": [guard(textwrap.wrap, t, width=w, initial_indent=ii, subsequent_indent=si, break_long_words=False, break_on_hyphens=False)
                for t, w, ii, si in p.get("tw", [])],
         "doc": [guard(doc, d) for d in p.get("doc", [])],
